@@ -7,35 +7,49 @@ import CoapVerif.Util
 namespace Coap.Driver.Sessions
 open Coap Coap.Sessions
 
-def peerOf (p : Nat) : Peer := ⟨p % 25, p / 25, 1⟩
+/-- datagram peers 0..49 on the two UDP endpoints (local ports 0, 1), stream peers 50..57 on the TCP endpoint (local port 2) -/
+def NDGRAM : Nat := 50
+def NPEER : Nat := 58
+def peerOf (p : Nat) : Peer := if p < NDGRAM then ⟨p % 25, p / 25, COAP_PROTO_UDP⟩ else ⟨p, 2, COAP_PROTO_TCP⟩
 
 def parsePK (s : String) : Option (Nat × Nat) :=
   match s.splitOn "." with
-  | [a] => a.toNat?.bind fun p => if p < 50 then some (p, 0) else none
+  | [a] => a.toNat?.bind fun p => if p < NPEER then some (p, 0) else none
   | [a, b] =>
     match a.toNat?, b.toNat? with
-    | some p, some k => if p < 50 && k < 2 then some (p, k) else none
+    | some p, some k => if p < NPEER && k < 2 then some (p, k) else none
     | _, _ => none
+  | _ => none
+
+/-- `P` of a datagram peer -/
+def parseDgram (s : String) : Option Nat := (parsePK s).bind fun (p, _) => if p < NDGRAM then some p else none
+/-- `S` of a stream peer (no suffix) -/
+def parseStream (s : String) : Option Nat :=
+  if s.contains '.' then none else s.toNat?.bind fun p => if NDGRAM ≤ p && p < NPEER then some p else none
+/-- `S.C`: stream peer, number of bytes sent first (1 .. PART_LEN-1) -/
+def parsePart (s : String) : Option (Nat × Nat) :=
+  match (s.splitOn ".").mapM String.toNat? with
+  | some [p, c] => if NDGRAM ≤ p && p < NPEER && 0 < c && c < PART_LEN then some (p, c) else none
   | _ => none
 
 /-- `P.K[.V[.Q]]`: peer, resource, token variant (0..2), query variant (0..1) -/
 def parseObs (s : String) : Option (Nat × Nat × Nat × Nat) :=
   match (s.splitOn ".").mapM String.toNat? with
-  | some [p, k] => if p < 50 && k < 2 then some (p, k, 0, 0) else none
-  | some [p, k, v] => if p < 50 && k < 2 && v < 3 then some (p, k, v, 0) else none
-  | some [p, k, v, q] => if p < 50 && k < 2 && v < 3 && q < 2 then some (p, k, v, q) else none
+  | some [p, k] => if p < NPEER && k < 2 then some (p, k, 0, 0) else none
+  | some [p, k, v] => if p < NPEER && k < 2 && v < 3 then some (p, k, v, 0) else none
+  | some [p, k, v, q] => if p < NPEER && k < 2 && v < 3 && q < 2 then some (p, k, v, q) else none
   | _ => none
 
 /-- `P.J`: peer, how many notifications back (0 = the latest, .. 3) -/
 def parsePJ (s : String) : Option (Nat × Nat) :=
   match (s.splitOn ".").mapM String.toNat? with
-  | some [p, j] => if p < 50 && j < 4 then some (p, j) else none
+  | some [p, j] => if p < NDGRAM && j < 4 then some (p, j) else none
   | _ => none
 
 /-- `P.D.H`: peer, delay of the async response (ticks, 0 = never), time the handler takes when re-invoked (ticks) -/
 def parseSlow (s : String) : Option (Nat × Nat × Nat) :=
   match (s.splitOn ".").mapM String.toNat? with
-  | some [p, d, h] => if p < 50 && d < 10000000 && h < 10000000 then some (p, d, h) else none
+  | some [p, d, h] => if p < NPEER && d < 10000000 && h < 10000000 then some (p, d, h) else none
   | _ => none
 
 def parseEvent (tok : String) : Option Event :=
@@ -53,8 +67,12 @@ def parseEvent (tok : String) : Option Event :=
     else if c = 'b' then (parseSlow arg).map fun (p, d, h) => .rx (peerOf p) (.slow d h)
     else if c = 'I' then arg.toNat?.bind fun d => if d < 10000000 then some (.ioStale d) else none
     else if c = 'f' then (parsePK arg).map fun (p, _) => .asyncFree (peerOf p)
-    else if c = 'q' then (parsePK arg).map fun (p, _) => .ping (peerOf p)
-    else if c = 'k' then (parsePK arg).map fun (p, _) => .rst (peerOf p)
+    else if c = 'q' then (parseDgram arg).map fun p => .ping (peerOf p)
+    else if c = 'k' then (parseDgram arg).map fun p => .rst (peerOf p)
+    else if c = 'n' then (parseStream arg).map fun p => .connect (peerOf p)
+    else if c = 'z' then (parseStream arg).map fun p => .peerClose (peerOf p)
+    else if c = 'e' then (parseStream arg).map fun p => .restRx (peerOf p)
+    else if c = 'p' then (parsePart arg).map fun (p, n) => .partialRx (peerOf p) n
     else if c = '+' then (parsePK arg).map fun (p, _) => .appRef (peerOf p)
     else if c = '-' then (parsePK arg).map fun (p, _) => .appRelease (peerOf p)
     else if c = 'x' then (parsePK arg).map fun (p, _) => .disconnect (peerOf p)
@@ -84,14 +102,16 @@ def showEvents (all : List SEvent) (fresh : List SEvent) : String :=
     | .del s => "D" ++ showIdx all s)
 
 def showState (st : St) : String :=
-  if st.freed then "R- I0/0" else
+  if st.freed then "R- I0/0/0" else
   -- M's `ref`; S's holder count is printed next to it only if it differs (by `ref_eq_holders` it never does), so the
   -- reference counts the implementation is compared with ARE the numbers of holders
   let rs := st.sessions.map fun s => toString s.idx ++ "=" ++ toString s.ref ++
     (if s.ref = st.holds s.sid then "" else "!holds" ++ toString (st.holds s.sid)) ++ "@" ++ toString s.last ++
-    "#" ++ toString s.notes
+    "#" ++ toString s.notes ++ (if s.pend = 0 then "" else "~" ++ toString s.pend) ++
+    (if st.partials.any (fun x => x.2 == s.sid) then "*" else "") ++ (if s.closed then "z" else "")
   "R" ++ (if rs.isEmpty then "-" else String.intercalate "," rs) ++
-  " I" ++ toString (st.idleOn 0 1).length ++ "/" ++ toString (st.idleOn 1 1).length
+  " I" ++ toString (st.idleOn 0 COAP_PROTO_UDP).length ++ "/" ++ toString (st.idleOn 1 COAP_PROTO_UDP).length ++
+  "/" ++ toString (st.idleOn 2 COAP_PROTO_TCP).length
 
 def showLive (st : St) : String :=
   "L" ++ toString st.sessions.length ++ "/" ++ toString (st.holders.filter fun h => isAnyObs h.kind).length ++ "/" ++
@@ -104,7 +124,7 @@ def showOutcome (st : St) : Outcome → String
   | .ok => "ok"
   | .skip => "skip"
 
-def initSt : St := St.init [(0, 1), (1, 1)] 5
+def initSt : St := St.init [(0, COAP_PROTO_UDP), (1, COAP_PROTO_UDP), (2, COAP_PROTO_TCP)] 5
 
 def runTokens : List (String × Event) → St → List String → St × List String
   | [], st, acc => (st, acc.reverse)
